@@ -358,14 +358,39 @@ fn blk_is_inline(b: &Blk) -> bool {
 // ---------------------------------------------------------------------------------------------
 // Renderer
 
+/// Layout freedoms (C10): every combination renders the same program.
+#[derive(Clone, Copy, Debug, Default, PartialEq, Eq)]
+pub struct Layout {
+    /// indented-block form for if/else, function bodies and match/switch arms wherever a block is
+    /// allowed, even when the inline form would do
+    pub prefer_block: bool,
+    /// parentheses around every operand, argument and element that does not need them
+    pub redundant_parens: bool,
+    /// statement-level binary expressions, parenthesised argument lists and call chains broken
+    /// across indented continuation lines
+    pub break_lines: bool,
+    /// with `break_lines`: binary operators end the first line instead of starting the second
+    pub operator_at_line_end: bool,
+    /// the value of an assignment / return on its own indented line after `=` / `return`
+    pub rhs_own_line: bool,
+}
+
 pub struct Renderer {
     pub indent_width: usize,
+    pub layout: Layout,
 }
 
 impl Default for Renderer {
     fn default() -> Self {
-        Renderer { indent_width: 2 }
+        Renderer { indent_width: 2, layout: Layout::default() }
     }
+}
+
+pub fn render_program_with(stmts: &[X], indent_width: usize, layout: Layout) -> String {
+    let r = Renderer { indent_width, layout };
+    let mut out = String::new();
+    r.block(stmts, 0, &mut out);
+    out
 }
 
 pub fn render_program(stmts: &[X]) -> String {
@@ -406,8 +431,116 @@ impl Renderer {
     pub fn block(&self, stmts: &[X], level: usize, out: &mut String) {
         for st in stmts {
             out.push_str(&self.pad(level));
-            out.push_str(&self.stmt(st, level));
+            match self.broken_stmt(st, level) {
+                Some(t) => out.push_str(&t),
+                None => out.push_str(&self.stmt(st, level)),
+            }
             out.push('\n');
+        }
+    }
+
+    /// `break_lines`: the statement with its root expression continued on indented lines
+    fn broken_stmt(&self, st: &X, level: usize) -> Option<String> {
+        if !self.layout.break_lines && !self.layout.rhs_own_line {
+            return None;
+        }
+        let (head, v): (Option<String>, &X) = match &**st {
+            E::Assign(t, v) if !v.is_blocky() => (Some(format!("{} =", self.tgt(t, level))), v),
+            E::Return(Some(v)) if !v.is_blocky() => (Some("return".to_string()), v),
+            E::Call(..) | E::Bin(..) => (None, st),
+            _ => return None,
+        };
+        // the value on its own line: everything moves one level deeper
+        let own = self.layout.rhs_own_line && head.is_some() && !matches!(&**v, E::Pipe(..));
+        let level = if own { level + 1 } else { level };
+        let prefix = match (&head, own) {
+            (Some(h), true) => format!("{h}\n{}", self.pad(level)),
+            (Some(h), false) => format!("{h} "),
+            (None, _) => String::new(),
+        };
+        if !self.layout.break_lines {
+            let t = self.expr(v, 1, level);
+            return if own && !t.contains('\n') { Some(format!("{prefix}{t}")) } else { None };
+        }
+        let cont = self.pad(level + 1);
+        match &**v {
+            E::Bin(op, a, b) => {
+                let p = op.prec();
+                let l = self.expr(a, p, level);
+                let r = self.expr(b, p + 1, level);
+                if l.contains('\n') || r.contains('\n') {
+                    return None;
+                }
+                if self.layout.operator_at_line_end {
+                    Some(format!("{prefix}{l} {}\n{cont}{r}", op.text()))
+                } else {
+                    Some(format!("{prefix}{l}\n{cont}{} {r}", op.text()))
+                }
+            }
+            E::Call(f, args, CallStyle::Parens) => {
+                // a chain of at least two calls is broken before each `.`; otherwise the arguments
+                let mut segs: Vec<String> = vec![];
+                let mut cur: &X = v;
+                loop {
+                    match &**cur {
+                        E::Call(g, a, CallStyle::Parens) => {
+                            if let E::Access(base, name) = &**g {
+                                let at: Vec<String> = a.iter().map(|x| self.arg(x, level)).collect();
+                                segs.push(format!(".{}({})", name, at.join(", ")));
+                                cur = base;
+                                continue;
+                            }
+                            break;
+                        }
+                        _ => break,
+                    }
+                }
+                if segs.len() >= 2 {
+                    let root = self.expr(cur, PREC_POSTFIX, level);
+                    if root.contains('\n') || segs.iter().any(|s| s.contains('\n')) {
+                        return None;
+                    }
+                    segs.reverse();
+                    let mut o = format!("{prefix}{root}");
+                    for sgm in segs {
+                        o.push('\n');
+                        o.push_str(&cont);
+                        o.push_str(&sgm);
+                    }
+                    return Some(o);
+                }
+                if args.is_empty() {
+                    let t = self.expr(v, 1, level);
+                    return if own && !t.contains('\n') { Some(format!("{prefix}{t}")) } else { None };
+                }
+                let callee = self.expr(f, PREC_POSTFIX, level);
+                let at: Vec<String> = args.iter().map(|x| self.arg(x, level)).collect();
+                if callee.contains('\n') || at.iter().any(|s| s.contains('\n')) {
+                    return None;
+                }
+                let mut o = format!("{prefix}{callee}(");
+                for (i, a) in at.iter().enumerate() {
+                    o.push('\n');
+                    o.push_str(&cont);
+                    o.push_str(a);
+                    if i + 1 < at.len() {
+                        o.push(',');
+                    }
+                }
+                o.push('\n');
+                o.push_str(&self.pad(level));
+                o.push(')');
+                Some(o)
+            }
+            _ => {
+                if own {
+                    let t = self.expr(v, 1, level);
+                    if !t.contains('\n') {
+                        return Some(format!("{prefix}{t}"));
+                    }
+                }
+                None
+            }
         }
     }
 
@@ -415,7 +548,7 @@ impl Renderer {
     /// return value, last expression). Continuation lines are indented relative to `level`.
     pub fn stmt(&self, e: &X, level: usize) -> String {
         match &**e {
-            E::If(arms, els) if e.is_blocky() => {
+            E::If(arms, els) if e.is_blocky() || self.layout.prefer_block => {
                 let mut o = String::new();
                 for (i, (c, b)) in arms.iter().enumerate() {
                     if i > 0 {
@@ -533,13 +666,13 @@ impl Renderer {
                 }
                 o
             }
-            E::Func(f) if e.is_blocky() => {
+            E::Func(f) if e.is_blocky() || self.layout.prefer_block => {
                 let mut o = self.func_head(f, level);
                 o.push('\n');
                 self.block(&f.body, level + 1, &mut o);
                 trim_nl(o)
             }
-            E::Assign(t, v) if v.is_blocky() => {
+            E::Assign(t, v) if v.is_blocky() || (self.layout.prefer_block && matches!(&**v, E::If(..) | E::Func(_))) => {
                 if matches!(&**v, E::Map(_)) {
                     format!("{} ={}", self.tgt(t, level), self.stmt(v, level))
                 } else {
@@ -549,7 +682,7 @@ impl Renderer {
             E::OpAssign(op, t, v) if v.is_blocky() => {
                 format!("{} {}= {}", self.tgt(t, level), op.text(), self.stmt(v, level))
             }
-            E::Return(Some(v)) if v.is_blocky() => format!("return {}", self.stmt(v, level)),
+            E::Return(Some(v)) if v.is_blocky() || (self.layout.prefer_block && matches!(&**v, E::If(..) | E::Func(_))) => format!("return {}", self.stmt(v, level)),
             E::Export(v) => format!("export {}", self.stmt(v, level)),
             E::MultiAssign(ts, vs) => {
                 let t: Vec<String> = ts.iter().map(|t| self.tgt(t, level)).collect();
@@ -589,7 +722,7 @@ impl Renderer {
     }
 
     fn arm_body(&self, b: &Blk, level: usize, out: &mut String) {
-        if blk_is_inline(b) && !matches!(&*b[0], E::Call(_, _, CallStyle::Free)) {
+        if blk_is_inline(b) && !matches!(&*b[0], E::Call(_, _, CallStyle::Free)) && !self.layout.prefer_block {
             out.push(' ');
             out.push_str(&self.expr(&b[0], 0, level));
             out.push('\n');
@@ -631,7 +764,7 @@ impl Renderer {
             Pat::Lit(e) => match &**e {
                 E::Int(i) if *i < 0 && *i != i64::MIN => format!("{i}"),
                 E::Float(f) if *f < 0.0 => float_literal(*f),
-                _ => self.expr(e, PREC_UNARY, level),
+                _ => self.expr_plain(e, PREC_UNARY, level),
             },
             Pat::Tuple(ps, h) => {
                 let inner: Vec<String> = ps.iter().map(|p| self.pat(p, level, in_match)).collect();
@@ -692,6 +825,19 @@ impl Renderer {
     /// (parentheses are added when the node binds more loosely). `min == 0`: anything goes
     /// inline; `min == 1`: comma-separated context (tuples without parens not allowed).
     pub fn expr(&self, e: &X, min: u8, level: usize) -> String {
+        let (text, prec) = self.expr_prec(e, level);
+        if prec < min {
+            format!("({text})")
+        } else if self.layout.redundant_parens && (1..PREC_POSTFIX).contains(&min) && !text.contains('\n') && !text.ends_with("...") && !matches!(&**e, E::Pipe(..)) {
+            // redundant parentheses (not around callees / access bases, where they would change
+            // how `self` is bound, and not around block forms)
+            format!("({text})")
+        } else {
+            text
+        }
+    }
+
+    fn expr_plain(&self, e: &X, min: u8, level: usize) -> String {
         let (text, prec) = self.expr_prec(e, level);
         if prec < min { format!("({text})") } else { text }
     }
